@@ -223,6 +223,12 @@ func replayTimeout(a *hk.Args) error {
 			// later than the spacing of the script allows for: such a run says nothing about the behaviour it replays
 			finishFirst := af >= 0 && (tf < 0 || af < tf)
 			marginUs := int64(step / 3 / time.Microsecond)
+			if o.Returned && o.LatencyUs > marginUs {
+				// timers and goroutines were served later than the spacing of the script tolerates (the runner's own deadline timer too)
+				res.Status, res.Detail = "skip", fmt.Sprintf("scripted instants not realisable under load (scheduling latency %dus)", o.LatencyUs)
+				w.Write(res)
+				return
+			}
 			if o.Returned && o.ActionEnded && ((finishFirst && o.EndOffsetUs > -marginUs) || (!finishFirst && !o.SawStop && o.EndOffsetUs < marginUs)) {
 				res.Status, res.Detail = "skip", fmt.Sprintf("scripted order not realised under load (action end offset %dus)", o.EndOffsetUs)
 				w.Write(res)
@@ -344,6 +350,8 @@ func sweepTimeout(a *hk.Args) error {
 type ctxBehaviour struct {
 	Outcome       string   `json:"outcome"`
 	Watches       bool     `json:"watches"`
+	Quiet         bool     `json:"quiet"`          // the action returns nil, not the context's error, when it sees its context done
+	StoreCancel   bool     `json:"storeCancelled"` // another goroutine cancels the caller's store while the runner waits
 	Deferred      bool     `json:"deferred"`
 	Steps         []string `json:"steps"`
 	Ret           string   `json:"ret"`
@@ -386,6 +394,7 @@ func runCtx(id int, b *ctxBehaviour) hk.Result {
 	}
 	// scripted instants from the order of the timed steps of the behaviour
 	rc, pc, tf := index(b.Steps, "RunnerChecks"), index(b.Steps, "ParentCancels"), index(b.Steps, "TimerFires")
+	sc := index(b.Steps, "StoreCancels")
 	af := index(b.Steps, "ActionSends")
 	if index(b.Steps, "ActionFinishes") < 0 {
 		af = -1 // the action ended because it saw its context, not on its own
@@ -395,14 +404,14 @@ func runCtx(id int, b *ctxBehaviour) hk.Result {
 		idx  int
 	}
 	var ts []timed
-	for _, t := range []timed{{"parent", pc}, {"timer", tf}, {"finish", af}} {
+	for _, t := range []timed{{"parent", pc}, {"timer", tf}, {"finish", af}, {"store", sc}} {
 		if t.idx >= 0 && !(t.name == "parent" && pc < rc) {
 			ts = append(ts, t)
 		}
 	}
 	sort.Slice(ts, func(i, j int) bool { return ts[i].idx < ts[j].idx })
 	far := 60 * step
-	at := map[string]time.Duration{"parent": far, "timer": far, "finish": far}
+	at := map[string]time.Duration{"parent": far, "timer": far, "finish": far, "store": far}
 	for k, t := range ts {
 		at[t.name] = time.Duration(k+1) * step
 	}
@@ -434,6 +443,9 @@ func runCtx(id int, b *ctxBehaviour) hk.Result {
 			select {
 			case <-finish.C:
 			case <-ctx.Done():
+				if b.Quiet {
+					return nil
+				}
 				return ctx.Err()
 			}
 		}
@@ -444,11 +456,37 @@ func runCtx(id int, b *ctxBehaviour) hk.Result {
 	}
 	done := make(chan error, 1)
 	store := parallelisation.NewCancelFunctionsStore()
+	var storeAt atomic.Int64
+	// scheduling latency over the run: the runner's own deadline timer is served no better than this reference
+	var worstLat atomic.Int64
+	probeDone := make(chan struct{})
+	go func() {
+		for {
+			select {
+			case <-probeDone:
+				return
+			default:
+			}
+			p0 := time.Now()
+			time.Sleep(200 * time.Microsecond)
+			if over := int64(time.Since(p0)) - int64(200*time.Microsecond); over > worstLat.Load() {
+				worstLat.Store(over)
+			}
+		}
+	}()
+	defer close(probeDone)
 	go func() {
 		// every scripted instant is counted from here, in this goroutine, right before the call
 		t0 = time.Now()
 		if !preCancelled && pc >= 0 {
 			tm := time.AfterFunc(at["parent"], cancelParent)
+			defer tm.Stop()
+		}
+		if sc >= 0 {
+			tm := time.AfterFunc(at["store"], func() {
+				storeAt.Store(int64(time.Since(t0)) + 1)
+				store.Cancel()
+			})
 			defer tm.Stop()
 		}
 		if b.Deferred {
@@ -467,6 +505,10 @@ func runCtx(id int, b *ctxBehaviour) hk.Result {
 		}
 		return fail("runner-never-returns", fmt.Sprintf("context runner did not return; steps %v", b.Steps))
 	}
+	if lat := time.Duration(worstLat.Load()); lat > step/3 {
+		res.Status, res.Detail = "skip", fmt.Sprintf("scripted instants not realisable under load (scheduling latency %v)", lat)
+		return res
+	}
 	// did the scripted order of the timed events really happen? (a loaded machine can delay a timer or the start of the
 	// action by more than the spacing of the script: then this run says nothing about the behaviour it was meant to replay)
 	{
@@ -482,6 +524,13 @@ func runCtx(id int, b *ctxBehaviour) hk.Result {
 		if af >= 0 {
 			if v := actionStartAt.Load(); v > 0 {
 				real["finish"] = time.Duration(v-1) + at["finish"]
+			}
+		}
+		if sc >= 0 {
+			if v := storeAt.Load(); v > 0 {
+				real["store"] = time.Duration(v - 1)
+			} else {
+				real["store"] = far
 			}
 		}
 		for i := 0; i+1 < len(ts); i++ {
